@@ -465,6 +465,8 @@ def configs(tier):
     ev3 = ("evmon", 3, 1)
     ev20 = ("evmon", 20, 0)        # 3-chunk mask registers: 'pending' sits at the unaligned range 3..6
     gp = ("gpio", 2, 2)
+    br_wide = ("bridge", 4, [(48, None, "rw"), (8, None, "r"), (20, None, "rw")])      # six and three bus words
+    cdec7 = ("dec", 6, 0, [S(("bridge", 2, [(8, None, "rw")]), name=f"w{k}") for k in range(7)])     # seven windows
     mx_late = ("mux", 3, [(8, None, "rw"), (16, 2, "rw"), (8, None, "r"), (12, 6, "rw")], 2)
     mx_all = ("mux", 3, [(20, 1, "rw"), (8, None, "w")], "swap")
     cdec1 = ("dec", 5, 0, [S(br_a, name="a"), S(ev1), S(gp, name="gpio")])
@@ -492,6 +494,8 @@ def configs(tier):
             # made) and directly under the Wishbone bridge
             add(dw, aw, [S(("csr", ("dec", 5, 0, [S(mx_late, name="mx"), S(br_c)])), name="p"), S(("csr", mx_all), name="q"),
                          S(("sram", 8, True))], tag="mx_late")
+        if not quick or dw in (8, 32):
+            add(dw, aw, [S(("csr", br_wide), name="wide"), S(("sram", 8, True)), S(("csr", cdec7), name="seven")])
         if not quick or dw == 16:
             add(dw, aw + 1, [S(("sram", 8, True)), S(("csr", cdec_nested), name="n")])
             add(dw, aw, [S(("csr", gp)), S(("csr", br_c), name="c"), S(("sram", 8, True))])
